@@ -68,6 +68,9 @@ def gen_history(rng, thorough):
             k = rng.pick(inserted)                                                         # duplicate
         elif r <= 12:
             k = rng.pick(small) * (1 + rng.below(12))                                      # long shared prefix
+        elif r == 13:
+            # the ends of the alphabet (first, last and middle character get the extreme labels)
+            k = "".join(rng.pick([alpha[0], alpha[-1], alpha[len(alpha) // 2]]) for _ in range(1 + rng.below(3)))
         else:
             k = "".join(rng.pick(small if rng.chance(3, 4) else alpha) for _ in range(1 + rng.below(6)))
         ops.append(("tins", k))
